@@ -105,6 +105,18 @@ def Fix.fixed (fx : Fix) : Site → Bool
   | .k5v | .k5i => fx.k5 | .k6 => fx.k6 | .k7 => fx.k7 | .k8 => fx.k8 | .k9 => fx.k9 | .k10 => fx.k10 | .k13 => fx.k13
   | .k14 => fx.k14
 
+/-- repairs of other properties' findings that change what the parsers return (fixes/C14_D46 … D50; read off the source like `Fix`) -/
+structure Var where
+  ripUnsigned : Bool   -- D50: `RIPEntry.parse` reads the metric with struct 'I' instead of 'i'
+  eapKeep : Bool       -- D49: an EAP request / response keeps type octet + type data as `next` (bytes)
+  ip6Clamp : Bool      -- D48: ipv6.parse clamps the payload length to the bytes behind the fixed header; the fragment header is bounded
+                       --      by the buffer (`len(raw) - offset < 8`) instead of by `max_length - offset`
+  dnsBytes : Bool      -- D46: DNS names are read as bytes: questions and resource records parse (before: the first one made parse give up)
+  deriving DecidableEq, Repr
+
+def Var.none : Var := ⟨false, false, false, false⟩
+def Var.all : Var := ⟨true, true, true, true⟩
+
 /-- which version of the code is modelled (see the header) -/
 structure Cfg where
   tlvBound : Bool       -- D14
@@ -115,17 +127,20 @@ structure Cfg where
   ext : Bool            -- phase 2: the parsers of mpls, eapol/eap, ipv6 (+extension headers), icmpv6 (+NDP), igmp, gre, vxlan,
                         -- rip, dns are modelled; `false` = they end the chain as `Frame.foreign` (the phase-1 model)
   fix : Fix             -- phase 3: which repairs of the registered findings K5 … K16 are in the tree
+  var : Var             -- phase 4: which of the result-changing repairs D46, D48, D49, D50 are in the tree
   deriving DecidableEq, Repr
 
-/-- /repo HEAD with the given subset of the K-repairs -/
-def Cfg.repairedWith (fx : Fix) : Cfg := ⟨true, true, true, true, true, true, fx⟩
-/-- /repo HEAD (none of the K-repairs) -/
+/-- the tree with the phase-1 repairs, the subset `fx` of the K-repairs and the subset `v` of the D-repairs -/
+def Cfg.tree (fx : Fix) (v : Var) : Cfg := ⟨true, true, true, true, true, true, fx, v⟩
+/-- the phase-3 tree with the given subset of the K-repairs -/
+def Cfg.repairedWith (fx : Fix) : Cfg := Cfg.tree fx Var.none
+/-- the tree before the K-repairs -/
 def Cfg.repaired : Cfg := Cfg.repairedWith Fix.none
-/-- /repo HEAD plus all proposed K-repairs -/
+/-- all K-repairs: /repo HEAD since phase 3 was merged -/
 def Cfg.fixed : Cfg := Cfg.repairedWith Fix.all
 /-- the repaired code with the phase-2 parsers left foreign: the model that `refines_c14` relates to `Packet.parse` -/
-def Cfg.core : Cfg := ⟨true, true, true, true, true, false, Fix.none⟩
-def Cfg.head : Cfg := ⟨false, false, false, false, false, false, Fix.none⟩
+def Cfg.core : Cfg := ⟨true, true, true, true, true, false, Fix.none, Var.none⟩
+def Cfg.head : Cfg := ⟨false, false, false, false, false, false, Fix.none, Var.none⟩
 
 /-! ## records that C14 does not have -/
 
@@ -187,10 +202,32 @@ structure Rip where
   entries : List RipEntry
   deriving DecidableEq, Repr
 
+/-- a DNS question: the name is the UTF-8 text of `".".join(labels)` -/
+structure DnsQ where
+  name : Bytes
+  qtype : Nat
+  qclass : Nat
+  deriving DecidableEq, Repr
+
+/-- a DNS resource record; `rdKind` 0 = raw bytes, 1 = a name (NS, PTR, CNAME, MX), 2 = an address object (A, AAAA) -/
+structure DnsRR where
+  name : Bytes
+  qtype : Nat
+  qclass : Nat
+  ttl : Nat
+  rdlen : Nat
+  rdKind : Nat
+  rd : Bytes
+  deriving DecidableEq, Repr
+
 structure Dns where
   id : Nat
   bits0 : Nat
   bits1 : Nat
+  questions : List DnsQ := []
+  answers : List DnsRR := []
+  authorities : List DnsRR := []
+  additional : List DnsRR := []
   deriving DecidableEq, Repr
 
 structure IPv6 where
@@ -726,14 +763,14 @@ def mplsParse (next : K → Bytes → P Frame) (raw : Bytes) : P Frame :=
   | .error e => .error e
 
 /-- eap.py:153-186 (with C15-6) -/
-def eapParse (raw : Bytes) : P Frame :=
+def eapParse (v : Var) (raw : Bytes) : P Frame :=
   if raw.length < 4 then pure (.unparsed "eap" raw) else
   match unpackE eapolL (raw.take 4) with
   | .ok [.num code, .num id, .num length] =>
     if (code = 1 ∨ code = 2) ∧ raw.length < 5 then pure (.ext (.eap ⟨code, id, length, none⟩) raw .nil)
     else if code = 1 ∨ code = 2 then
       match unpackE u8L (sl raw 4 5) with
-      | .ok [.num t] => pure (.ext (.eap ⟨code, id, length, some t⟩) raw .nil)
+      | .ok [.num t] => pure (.ext (.eap ⟨code, id, length, some t⟩) raw (if v.eapKeep then .raw (raw.drop 4) else .nil))   -- D49: `self.next = raw[MIN_LEN:]`
       | .ok _ => .error .struct
       | .error e => .error e
     else pure (.ext (.eap ⟨code, id, length, none⟩) raw .nil)
@@ -771,34 +808,185 @@ def decI32 (b : Bytes) : Int :=
   if w ≥ 2147483648 then (w : Int) - 4294967296 else (w : Int)
 
 /-- rip.py:100-108: `while len(raw) >= 20: RIPEntry(raw=raw[0:20])` (a 20-byte slice always unpacks) -/
-def ripEntries : Nat → Bytes → List RipEntry
+def ripEntries (v : Var) : Nat → Bytes → List RipEntry
   | 0, _ => []
   | fuel+1, b =>
     if b.length < 20 then [] else
-    ⟨beDec (b.take 2), beDec (sl b 2 4), beDec (sl b 4 8), beDec (sl b 8 12), beDec (sl b 12 16), decI32 (sl b 16 20)⟩
-      :: ripEntries fuel (b.drop 20)
+    ⟨beDec (b.take 2), beDec (sl b 2 4), beDec (sl b 4 8), beDec (sl b 8 12), beDec (sl b 12 16),
+     if v.ripUnsigned then (beDec (sl b 16 20) : Int) else decI32 (sl b 16 20)⟩                       -- D50: '!HHiiiI'
+      :: ripEntries v fuel (b.drop 20)
 
 /-- rip.py:86-111 -/
-def ripParse (raw : Bytes) : P Frame :=
+def ripParse (v : Var) (raw : Bytes) : P Frame :=
   if raw.length < 24 then pure (.unparsed "rip" raw) else
   match unpackE ripL (raw.take 4) with
   | .ok [.num command, .num version, .num z] =>
     if z ≠ 0 then pure (.unparsed "rip" raw)
-    else pure (.ext (.rip ⟨command, version, ripEntries raw.length (raw.drop 4)⟩) raw .nil)
+    else pure (.ext (.rip ⟨command, version, ripEntries v raw.length (raw.drop 4)⟩) raw .nil)
   | .ok _ => .error .struct
   | .error e => .error e
 
 /-- dns.py:265-330 as the code stands (D46): the first question / resource record calls `ord()` on an int inside the
 `try/except Exception` of `parse`, so every message that announces a question or record ends with `parsed = False`; name
 decompression (and its pointer loops) is never reached.  Only a bare header parses. -/
-def dnsParse (raw : Bytes) : P Frame :=
+def dnsParse0 (raw : Bytes) : P Frame :=
   if raw.length < 12 then pure (.unparsed "dns" raw) else
   match unpackE dnsL (raw.take 12) with
   | .ok [.num id, .num b0, .num b1, .num q, .num a, .num au, .num ad] =>
     if q ≠ 0 ∨ a ≠ 0 ∨ au ≠ 0 ∨ ad ≠ 0 then pure (.unparsed "dns" raw)
-    else pure (.ext (.dns ⟨id, b0, b1⟩) raw .nil)
+    else pure (.ext (.dns ⟨id, b0, b1, [], [], [], []⟩) raw .nil)
   | .ok _ => .error .struct
   | .error e => .error e
+
+/-! #### DNS with repair D46 (names are bytes): questions, resource records, name decompression.
+
+Everything below runs inside the four `try: … except Exception: self._exc(…); return None` blocks of `dns.parse`
+(dns.py:298-326), so whatever raises — `IndexError` → `Trunc`, the `Trunc`s raised on purpose, `UnicodeDecodeError` of a label,
+`TypeError` of `raise Exception(…, system='packet')`, and the `RecursionError` that ends a compression-pointer loop — makes
+parse give up with `parsed = False`.  The helpers are `Option`-valued: `none` = "raised, caught by parse". -/
+
+/-- `bytes.decode()` accepts exactly well-formed UTF-8 (Unicode Table 3-7: no overlong forms, no surrogates, ≤ U+10FFFF);
+`fuel` ≥ length -/
+def utf8Valid : Nat → Bytes → Bool
+  | 0, b => b.isEmpty
+  | _, [] => true
+  | fuel+1, a :: r =>
+    let a := a.toNat
+    let cont (x : UInt8) (lo hi : Nat) : Bool := lo ≤ x.toNat && x.toNat ≤ hi
+    if a < 0x80 then utf8Valid fuel r
+    else if 0xC2 ≤ a ∧ a ≤ 0xDF then
+      match r with
+      | b1 :: r' => cont b1 0x80 0xBF && utf8Valid fuel r'
+      | _ => false
+    else if 0xE0 ≤ a ∧ a ≤ 0xEF then
+      match r with
+      | b1 :: b2 :: r' =>
+        cont b1 (if a = 0xE0 then 0xA0 else 0x80) (if a = 0xED then 0x9F else 0xBF) && cont b2 0x80 0xBF && utf8Valid fuel r'
+      | _ => false
+    else if 0xF0 ≤ a ∧ a ≤ 0xF4 then
+      match r with
+      | b1 :: b2 :: b3 :: r' =>
+        cont b1 (if a = 0xF0 then 0x90 else 0x80) (if a = 0xF4 then 0x8F else 0xBF) && cont b2 0x80 0xBF && cont b3 0x80 0xBF
+          && utf8Valid fuel r'
+      | _ => false
+    else false
+
+/-- the `while True` loop of `_read_dns_name_from_index(l, index, retlist)` (dns.py:374-395); `follow` is the recursive call made for
+a compression pointer.  Returns the index of the byte that ends the name (the zero octet, or the first octet of a pointer) and the
+labels.  A label length with the top bits 01 / 10 is an ordinary length; a label that runs past the end is a short slice and the next
+`l[index]` raises.  Every round advances `index`, so `l.length + 1` rounds are enough (`steps`). -/
+def dnsLoop (l : Bytes) (follow : Nat → List Bytes → Option (Nat × List Bytes)) : Nat → Nat → List Bytes → Option (Nat × List Bytes)
+  | 0, _, _ => none
+  | steps+1, index, acc =>
+    match l[index]? with
+    | none => none                                                            -- IndexError → Trunc("incomplete name")
+    | some c =>
+      let c := c.toNat
+      if c / 64 = 3 then
+        match l[index + 1]? with
+        | none => none
+        | some lo =>
+          match follow ((c % 4) * 256 + lo.toNat) acc with                     -- only 10 of the 14 offset bits are used (`& 0x3`)
+          | none => none
+          | some (_, acc') => some (index + 1, acc')
+      else if c = 0 then some (index, acc)
+      else
+        let lab := sl l (index + 1) (index + 1 + c)
+        if utf8Valid lab.length lab then dnsLoop l follow steps (index + 1 + c) (acc ++ [lab]) else none   -- `.decode()`
+
+/-- `_read_dns_name_from_index` with `hops` nested calls available.  A pointer chain without a loop visits each of the 1024
+reachable offsets at most once, so `dnsHops` is enough for every loop-free name; a pointer loop (Python: recursion until
+`RecursionError`, caught by parse) uses them up. -/
+def dnsName (l : Bytes) : Nat → Nat → List Bytes → Option (Nat × List Bytes)
+  | 0, _, _ => none
+  | hops+1, index, acc => dnsLoop l (dnsName l hops) (l.length + 1) index acc
+
+def dnsHops : Nat := 1025
+
+/-- `".".join(retlist)` as UTF-8 -/
+def dnsJoin : List Bytes → Bytes
+  | [] => []
+  | [a] => a
+  | a :: r => a ++ [0x2e] ++ dnsJoin r
+
+/-- `read_dns_name_from_index(l, index)` → `(next + 1, name)` -/
+def dnsReadName (l : Bytes) (index : Nat) : Option (Nat × Bytes) :=
+  match dnsName l dnsHops index [] with
+  | none => none
+  | some (nx, labels) => some (nx + 1, dnsJoin labels)
+
+/-- `next_question` (dns.py:449-459) -/
+def dnsQuestion (l : Bytes) (index : Nat) : Option (Nat × DnsQ) :=
+  match dnsReadName l index with
+  | none => none
+  | some (i, name) =>
+    if i + 4 > l.length then none
+    else some (i + 4, ⟨name, beDec (sl l i (i + 2)), beDec (sl l (i + 2) (i + 4))⟩)
+
+/-- `get_rddata` (dns.py:421-447): (kind, bytes) -/
+def dnsRdata (l : Bytes) (type dlen beg : Nat) : Option (Nat × Bytes) :=
+  if beg + dlen > l.length then none
+  else if type = 1 then (if dlen ≠ 4 then none else some (2, sl l beg (beg + 4)))        -- `raise Exception(…, system=…)`: TypeError, caught
+  else if type = 28 then (if dlen ≠ 16 then none else some (2, sl l beg (beg + 16)))
+  else if type = 2 ∨ type = 12 ∨ type = 5 then (dnsReadName l beg).map fun (_, n) => (1, n)
+  else if type = 15 then (dnsReadName l (beg + 2)).map fun (_, n) => (1, n)
+  else some (0, sl l beg (beg + dlen))
+
+/-- `next_rr` (dns.py:397-419) -/
+def dnsRR (l : Bytes) (index : Nat) : Option (Nat × DnsRR) :=
+  if index > l.length then none else
+  match dnsReadName l index with
+  | none => none
+  | some (i, name) =>
+    if i + 10 > l.length then none else
+    let qtype := beDec (sl l i (i + 2))
+    let qclass := beDec (sl l (i + 2) (i + 4))
+    let ttl := beDec (sl l (i + 4) (i + 8))
+    let rdlen := beDec (sl l (i + 8) (i + 10))
+    if i + 10 + rdlen > l.length then none else
+    match dnsRdata l qtype rdlen (i + 10) with
+    | none => none
+    | some (k, rd) => some (i + 10 + rdlen, ⟨name, qtype, qclass, ttl, rdlen, k, rd⟩)
+
+def dnsQuestions (l : Bytes) : Nat → Nat → List DnsQ → Option (Nat × List DnsQ)
+  | 0, i, acc => some (i, acc)
+  | n+1, i, acc =>
+    match dnsQuestion l i with
+    | none => none
+    | some (i', q) => dnsQuestions l n i' (acc ++ [q])
+
+def dnsRRs (l : Bytes) : Nat → Nat → List DnsRR → Option (Nat × List DnsRR)
+  | 0, i, acc => some (i, acc)
+  | n+1, i, acc =>
+    match dnsRR l i with
+    | none => none
+    | some (i', r) => dnsRRs l n i' (acc ++ [r])
+
+/-- dns.py:265-330 with D46 -/
+def dnsParse1 (raw : Bytes) : P Frame :=
+  if raw.length < 12 then pure (.unparsed "dns" raw) else
+  match unpackE dnsL (raw.take 12) with
+  | .ok [.num id, .num b0, .num b1, .num q, .num a, .num au, .num ad] =>
+    let r : Option Dns :=
+      match dnsQuestions raw q 12 [] with
+      | none => none
+      | some (i1, qs) =>
+        match dnsRRs raw a i1 [] with
+        | none => none
+        | some (i2, ans) =>
+          match dnsRRs raw au i2 [] with
+          | none => none
+          | some (i3, auth) =>
+            match dnsRRs raw ad i3 [] with
+            | none => none
+            | some (_, add) => some ⟨id, b0, b1, qs, ans, auth, add⟩
+    match r with
+    | none => pure (.unparsed "dns" raw)
+    | some h => pure (.ext (.dns h) raw .nil)
+  | .ok _ => .error .struct
+  | .error e => .error e
+
+def dnsParse (v : Var) (raw : Bytes) : P Frame := if v.dnsBytes then dnsParse1 raw else dnsParse0 raw
 
 /-! ### DHCP (with C15-5) -/
 
@@ -855,7 +1043,7 @@ abbrev ExtRes := Option (Nat × Nat × Nat × List (Nat × Nat × Bytes))     --
 /-- ipv6.py:357-373 with `NormalExtensionHeader.unpack_new` (ipv6.py:100-118) and `FixedExtensionHeader.unpack_new`
 (ipv6.py:172-183) inlined.  `length` is the payload length clamped to `len(raw)` (the whole buffer, as the code does);
 `len(o)` of a normal header is its length octet, of the fragment header 8. -/
-def extLoop (fx : Fix) (raw : Bytes) : Nat → Nat → Nat → Nat → List (Nat × Nat × Bytes) → P ExtRes
+def extLoop (fx : Fix) (v : Var) (raw : Bytes) : Nat → Nat → Nat → Nat → List (Nat × Nat × Bytes) → P ExtRes
   | 0, _, _, _, _ => .error .fuel
   | fuel+1, nht, offset, length, acc =>
     if nht = 59 then pure (some (nht, offset, length, acc))
@@ -867,18 +1055,19 @@ def extLoop (fx : Fix) (raw : Bytes) : Nat → Nat → Nat → Nat → List (Nat
         | .ok nh, .ok lb =>
           let l := lb * 8 + 6
           if length - 2 < l then pure none                                   -- TruncatedException, caught
-          else extLoop fx raw fuel nh (offset + 2 + l) (length - lb) (acc ++ [(nht, nh, sl raw (offset + 2) (offset + 2 + l))])
+          else extLoop fx v raw fuel nh (offset + 2 + l) (length - lb) (acc ++ [(nht, nh, sl raw (offset + 2) (offset + 2 + l))])
         | _, _ => .error .index
     else if nht = 44 then
-      if length < offset + 8 then pure none                                  -- `(max_length - offset) < LENGTH`
+      -- `(max_length - offset) < LENGTH`; D48: `max_length < LENGTH` (never, 8 ≤ length here) and `len(raw) - offset < LENGTH`
+      if (if v.ip6Clamp then raw.length < offset + 8 else length < offset + 8) then pure none
       else
         match idx raw offset with
-        | .ok nh => extLoop fx raw fuel nh (offset + 8) (length - 8) (acc ++ [(44, nh, sl raw (offset + 1) (offset + 8))])
+        | .ok nh => extLoop fx v raw fuel nh (offset + 8) (length - 8) (acc ++ [(44, nh, sl raw (offset + 1) (offset + 8))])
         | .error e => .error e
     else pure (some (nht, offset, length, acc))
 
 /-- ipv6.py:326-395 -/
-def ipv6Parse (fx : Fix) (next : K → Bytes → P Frame) (raw : Bytes) : P Frame :=
+def ipv6Parse (fx : Fix) (vr : Var) (next : K → Bytes → P Frame) (raw : Bytes) : P Frame :=
   if raw.length < 40 then pure (.unparsed "ipv6" raw) else
   match unpackE ipv6L (raw.take 8) with
   | .ok [.num vtcfl, .num plen, .num nh0, .num hop] =>
@@ -886,8 +1075,10 @@ def ipv6Parse (fx : Fix) (next : K → Bytes → P Frame) (raw : Bytes) : P Fram
     let dst := sl raw 24 40
     let v := vtcfl / 268435456
     if v ≠ 6 then pure (.unparsed "ipv6" raw) else
-    let length0 := if plen > raw.length then raw.length else plen
-    match extLoop fx raw (raw.length + 1) nh0 40 length0 [] with
+    -- clamp to what we've got: the whole buffer, or (D48) what lies behind the fixed header
+    let have_ := if vr.ip6Clamp then raw.length - 40 else raw.length
+    let length0 := if plen > have_ then have_ else plen
+    match extLoop fx vr raw (raw.length + 1) nh0 40 length0 [] with
     | .error e => .error e
     | .ok none => pure (.unparsed "ipv6" raw)
     | .ok (some (nht, offset, length, exts)) =>
@@ -1181,11 +1372,11 @@ def parseD (cfg : Cfg) : Nat → K → Bytes → P Frame
     | .lldp => lldpParse cfg raw
     | .mpls => mplsParse (parseD cfg d) raw
     | .eapol => eapolParse (parseD cfg d) raw
-    | .eap => eapParse raw
+    | .eap => eapParse cfg.var raw
     | .vxlan => vxlanParse (parseD cfg d) raw
-    | .rip => ripParse raw
-    | .dns => dnsParse raw
-    | .ipv6 => ipv6Parse cfg.fix (parseD cfg d) raw
+    | .rip => ripParse cfg.var raw
+    | .dns => dnsParse cfg.var raw
+    | .ipv6 => ipv6Parse cfg.fix cfg.var (parseD cfg d) raw
     | .icmp6 s t => icmp6Parse cfg.fix s t (parseD cfg d) raw
     | .echo6 => echo6Parse raw
     | .unreach6 => unreach6Parse (parseD cfg d) raw
